@@ -233,8 +233,8 @@ Definition parse_char_literal (x : st) : pres :=
             match char_loop char_loop_bound l0 c0 (pre ++ q) 0 x2 with
             | CMIL => PExn MaybeInfiniteLoop
             | CDone value chars x3 =>
-                let x4 := if str_eqb value [39; 39]%N
-                          then add_err (from_name (s "EMPTY_CHAR") lv_error [mkhl l0 c0 (Some 2) None]) x3 else x3 in
+                let x4 := if Nat.eqb chars 0 && ends_with [39; 39]%N value
+                          then add_err (from_name (s "EMPTY_CHAR") lv_error [mkhl l0 c0 (Some (zl value)) None]) x3 else x3 in
                 let x5 := if Nat.ltb 1 chars && ends_with [39%N] value
                           then add_err (from_name (s "CHAR_AS_STRING") lv_error
                                           [mkhl l0 c0 (Some (zl value)) None; mkhl l0 c0 (Some 1) (Some hint_char_as_string)]) x4
@@ -379,7 +379,7 @@ Section WithClasses.
             let column := c0 + zl const in
             let badhex := strip (hexadecimal_digits ++ s ".") const in
             let verdict : option (option diag) :=     (* None = `return` (hexadecimal integer) *)
-              if Nat.eqb ty 0 && negb (exp_ok ud expo) then
+              if nonempty expo && negb (exp_ok_in ud (if Nat.eqb ty 2 then [112; 80]%N else [101; 69]%N) expo) then
                 Some (Some (from_name (s "BAD_EXPONENT") lv_error [mkhl l0 column (Some (zl expo + zl suffix)) None]))
               else if Nat.eqb ty 2 && negb (chr_in 46%N const) && negb (nonempty expo) then None
               else if Nat.eqb ty 2 && negb (str_in badhex [s "x"; s "X"]) then
